@@ -157,6 +157,19 @@ def r18_5(rep, M, rid):
         else:
             rep.violation(rid, "classify: one seed per species", "the seed list is not 'first occurrence of each element, element then struck off': a species can be skipped "
                           "(its slab is never searched) or seeded more than once", M.where(FQ, lp))
+        # the loop stops early only when every species has its seed: `if len(<pool>) == 0: break`
+        for br in [b for b in ast.walk(lp) if isinstance(b, ast.Break)]:
+            conds = [(t, pol) for t, pol in fl.cfg.branch_conditions(fl.node_of(br)) if isinstance(t, ast.If) and any(x is br for x in ast.walk(t))]
+            okb = any(pol and isinstance(t.test, ast.Compare) and isinstance(t.test.ops[0], ast.Eq) and isinstance(t.test.left, ast.Call)
+                      and isinstance(t.test.left.func, ast.Name) and t.test.left.func.id == "len" and isinstance(t.test.comparators[0], ast.Constant)
+                      and t.test.comparators[0].value == 0 for t, pol in conds) or \
+                any(pol and isinstance(t.test, ast.UnaryOp) and isinstance(t.test.op, ast.Not) for t, pol in conds)
+            if okb:
+                rep.ok(rid, "classify: the seed loop ends early only when no species is left without a seed")
+            else:
+                rep.violation(rid, "classify: early exit of the seed loop", f"`break` under `{norm(conds[0][0].test) if conds else 'no test'}`: the loop stops while species are "
+                              "still waiting for their seed (after the first atom), so only the element nearest to the centre of mass is ever used as seed and the other "
+                              "slab / the adsorbate-covered side is never searched", M.where(FQ, br))
     # the reference point is computed on the wrapped working copy
     arg = com[0].args[0] if com[0].args else None
     inp = M.params(FQ)[0]
@@ -268,6 +281,7 @@ def run(rep, ctx):
     rep.rule("R18.6", "a direction is connected iff some unit was reached along +d and -d")
     with rep.guard("R18.6"):
         r18_6(rep, M, "R18.6")
+        target_cell_adds_multiplier(rep, M, "R18.6")
     rep.rule("R18.8", "the prototype cell of a monolayer found through a 3D cell is reduced to (a, b) and reported with two spans, so the region is 2D (shared with C04)")
     with rep.guard("R18.8"):
         from . import c04 as _c04
@@ -288,6 +302,9 @@ def run(rep, ctx):
         _c04w.both_directions_alike(rep, M, "R18.9")
         _c04w.image_labels_add(rep, M, "R18.9")
         _c04w.correction_orientation(rep, M, "R18.9")
+        _c04w.builders_pick_alike(rep, M, "R18.9")
+        _c04w.per_copy_distance(rep, M, "R18.9")
+        _c04w.span_2d_form(rep, M, "R18.9")
         _c04w.span_through_minus_neighbour(rep, M, "R18.9")
     rep.rule("R18.10", "no function keeps results in module-level state or functools caches (answers do not depend on what the process analysed before)")
     with rep.guard("R18.10"):
@@ -339,3 +356,22 @@ def option_defaults_agree(rep, M, rid):
             rep.violation(rid, f"default of option `{name}`", f"the entry points disagree on the constant ({shown}): a default-constructed Classifier runs the region search "
                           "with another limit than the finder's own default, e.g. the whole simulation cell is accepted as a 2D unit cell and adsorbates join the region",
                           M.where(q0, d0))
+
+
+# ----------------------------------------------------------------------------- the neighbouring cell of a match: current cell index + multiplier
+def target_cell_adds_multiplier(rep, M, rid):
+    """_find_new_seeds_and_cell: a match found at +multiplier from the current cell belongs to cell `cell_index + multiplier`; the edge of the search graph
+    carries the same multiplier, so get_connected_directions and the tracking of the region agree on where the unit is"""
+    fq = PF + "._find_new_seeds_and_cell"
+    fn = M.func(fq)
+    ps = M.params(fq)
+    cands = [s2 for s2 in ast.walk(fn) if isinstance(s2, ast.Assign) and isinstance(s2.value, ast.BinOp) and isinstance(s2.value.op, (ast.Add, ast.Sub))
+             and isinstance(s2.value.left, ast.Name) and s2.value.left.id in ps and "cell" in s2.value.left.id and isinstance(s2.value.right, ast.Name)]
+    if not cands:
+        raise AnalysisError("_find_new_seeds_and_cell: computation of the neighbouring cell index not recognised")
+    for s2 in cands:
+        if isinstance(s2.value.op, ast.Add):
+            rep.ok(rid, f"_find_new_seeds_and_cell: `{norm(s2)}`")
+        else:
+            rep.violation(rid, f"_find_new_seeds_and_cell: `{norm(s2)}`", "the cell of a match is the current cell *minus* the multiplier under which it was searched: the region is "
+                          "tracked in the mirrored cell, units collide with the seed cell and the +d / -d edges of the search graph no longer close", M.where(fq, s2))
